@@ -17,7 +17,8 @@
                      (kernel-decided per table over the tables regenerated from the C header).
 -/
 import LecProofs.Instances
--- XOR instance: see roundtrip_xor below once LecProofs.XorContracts is in place
+import LecProofs.XorContracts
+import LecProofs.XorTablesOK
 import LecGen
 namespace LecProps.C01
 open Lec
@@ -53,6 +54,35 @@ theorem roundtrip_rs (env : Env) (k m ct : Nat) (hk : 1 ≤ k) (hkm : k + m ≤ 
     (blockSize_even _ _ hk rfl) (rs_frontOK env k m ct data.length hk hkm hct hlv hl0 hlen)
     (by simp [rsBackend, rsInst]) henc hsub hmiss hmiss hn force
 
+/-- the front end's encode succeeds for every generated flat-XOR table. -/
+theorem xor_encode_exists (env : Env) (T : XorTable) (ct : Nat) (data : Bytes) :
+    ∃ enc, encode env (xorBackend T) (xorInst T.k T.m ct) data = .ok enc := by
+  have hs : IsStripe (xorBackend T) T.k T.m (blockSize (xorInst T.k T.m ct) data.length)
+      (splitLoop T.k (blockSize (xorInst T.k T.m ct) data.length) data)
+      ((List.range T.m).map fun j => interp (blockSize (xorInst T.k T.m ct) data.length)
+        (splitLoop T.k (blockSize (xorInst T.k T.m ct) data.length) data) (T.pbm j)) :=
+    (xor_isStripe_iff T _ _ _).2 ⟨splitLoop_length _ _ _, splitLoop_elem_length _ _ _, rfl⟩
+  exact encode_ok_of_backend env _ (xorInst T.k T.m ct) data _ _ hs.enc
+
+/-- flat XOR, every shape `init_xor_hd_code` accepts: fewer than hd fragments missing. -/
+theorem roundtrip_xor (env : Env) (k m hd ct : Nat) (T : XorTable) (hT : LecGen.xorTableFor hd m k = some T)
+    (hct : ct < 256) (hlv : env.libver < 2 ^ 32) (hl0 : env.libver ≠ 0)
+    (data : Bytes) (hlen : data.length < 2 ^ 31 - 2 ^ 12) :
+    ∃ enc, encode env (xorBackend T) (xorInst k m ct) data = .ok enc ∧
+      ∀ frags : List Bytes, (∀ f ∈ frags, f ∈ enc) → (missingOfStripe enc frags).length < hd →
+        k ≤ frags.length → ∀ force,
+        decode env (xorBackend T) (xorInst k m ct) frags
+          (80 + blockSize (xorInst k m ct) data.length) force = .ok data := by
+  obtain ⟨hmem, rfl, rfl, rfl⟩ := XorCheck.tableFor_fields hT
+  have hshape : xorShapeOK T.k T.m T.hd = true := by rw [xorTables_whitelist, hT]; rfl
+  obtain ⟨hE, hD, _, h1, h2⟩ := xor_contracts_for hT
+  obtain ⟨enc, henc⟩ := xor_encode_exists env T ct data
+  refine ⟨enc, henc, ?_⟩
+  intro frags hsub hmiss hn force
+  exact roundtrip env _ (xorInst T.k T.m ct) data enc frags hE hD trivial
+    (xor_frontOK env T.k T.m T.hd ct data.length hshape hct hlv hl0 hlen) (by simp [xorBackend, xorInst])
+    henc hsub hmiss (by simp only [xorInst]; omega) hn force
+
 /-- non-vacuity: (k,m) = (2,1), five bytes, the first data fragment dropped, forced checks. -/
 example :
     (let env : Env := { libver := 0x010604, legacy := false }
@@ -66,4 +96,5 @@ example :
 
 #print axioms roundtrip
 #print axioms roundtrip_rs
+#print axioms roundtrip_xor
 end LecProps.C01
